@@ -6,6 +6,7 @@ import (
 	"fmt"
 	"net"
 	"os"
+	"sync"
 	"sync/atomic"
 	"syscall"
 
@@ -75,32 +76,59 @@ func NewV6(cfg V6Config) *V6 {
 		panic(err)
 	}
 	d.Srv = s
-	d.srvConn, err = net.ListenUDP("udp4", &net.UDPAddr{IP: net.IPv4(127, 0, 0, 1)})
+	d.srvConn, d.rcv, d.peer = getSockets()
+	s.VerifSetConn(d.srvConn)
+	return d
+}
+
+// Close returns the sockets to the free list (they carry no state once drained).
+func (d *V6) Close() {
+	if d.srvConn != nil {
+		d.drain()
+		d.Srv.VerifSetConn(nil)
+		sockMu.Lock()
+		sockFree = append(sockFree, sockPair{d.srvConn, d.rcv, d.peer})
+		sockMu.Unlock()
+		d.srvConn, d.rcv = nil, nil
+	}
+}
+
+type sockPair struct {
+	srv, rcv *net.UDPConn
+	peer     *net.UDPAddr
+}
+
+var (
+	sockMu   sync.Mutex
+	sockFree []sockPair
+)
+
+// getSockets returns a (server socket, private receiver on 127.x.y.z:546, peer address) triple,
+// reusing closed instances' sockets: every explored state builds a fresh server, and creating
+// two sockets per state would dominate the run time.
+func getSockets() (*net.UDPConn, *net.UDPConn, *net.UDPAddr) {
+	sockMu.Lock()
+	if n := len(sockFree); n > 0 {
+		p := sockFree[n-1]
+		sockFree = sockFree[:n-1]
+		sockMu.Unlock()
+		return p.srv, p.rcv, p.peer
+	}
+	sockMu.Unlock()
+	srv, err := net.ListenUDP("udp4", &net.UDPAddr{IP: net.IPv4(127, 0, 0, 1)})
 	if err != nil {
 		panic(err)
 	}
 	for try := 0; ; try++ {
 		n := v6seq.Add(1)
 		ip := net.IPv4(127, byte(1+(n>>16)%250), byte(n>>8), byte(n))
-		d.rcv, err = net.ListenUDP("udp4", &net.UDPAddr{IP: ip, Port: dhcpv6.DHCPv6ClientPort})
+		rcv, err := net.ListenUDP("udp4", &net.UDPAddr{IP: ip, Port: dhcpv6.DHCPv6ClientPort})
 		if err == nil {
-			d.peer = &net.UDPAddr{IP: ip, Port: 40000}
-			break
+			return srv, rcv, &net.UDPAddr{IP: ip, Port: 40000}
 		}
 		if try > 1000 {
 			panic(fmt.Sprintf("dhcpdrv: cannot bind a private loopback receiver on port 546: %v", err))
 		}
-	}
-	s.VerifSetConn(d.srvConn)
-	return d
-}
-
-// Close releases the sockets.
-func (d *V6) Close() {
-	if d.srvConn != nil {
-		d.srvConn.Close()
-		d.rcv.Close()
-		d.srvConn, d.rcv = nil, nil
 	}
 }
 
